@@ -658,8 +658,10 @@ public:
       Expr(location), name(name), expr(std::move(expr)) {}
   virtual void accept(AstVisitor *visitor) override {
     visitor->visitPre(*this);
-    expr->accept(visitor);
-    replaceExpr(expr, visitor);
+    if (visitor->shouldRecurseOp()) {
+      expr->accept(visitor);
+      replaceExpr(expr, visitor);
+    }
     visitor->visitPost(*this);
   }
   const std::string &getName() const { return name; }
